@@ -586,6 +586,14 @@ Definition spec_table (c : tcase) : list (N * bool) :=
    (21, (node_eqb (w_root (t_pre c)) (w_root (t_post c))));
    (18, ((if t_ok c then spec_valid_log (t_pre c) (fst (run_args c)) (snd (run_args c)) (run_log c) else true)));
    (19, ((if t_ok c then spec_consistent (t_sems c) (t_post c) (fst (run_args c)) else true)));
+   (* C17: a commit (any command but stage add / remove) never changes a DEFINITION: the serialised
+      definition (command, working directory, paths and flags of inputs and outputs, checksums
+      blanked - Index.def_json) of every stage file is the same before and after *)
+   (38, (forallb (fun pre => match snd pre, alookup (fst pre) (w_stages (t_post c)) with
+                             | Some s, Some (Some s') => beqb (def_json s) (def_json s')
+                             | Some _, _ => false
+                             | None, _ => true
+                             end) (w_stages (t_pre c))));
    (29, (match t_out c with
           | OStatus l => negb (match l with [] => true | _ => false end) && forallb (fun s => negb (ss_match (snd s))) l
           | _ => false
